@@ -29,9 +29,14 @@ def run(run, harness, replay=None):
     else:
         cfg = "MC_Bristol_quick.cfg" if tier == "quick" else "MC_Bristol_thorough.cfg"
         cpath = os.path.join(run.work, "cases.ndjson")
-        r, n = tlc_cases("MC_Bristol", cfg, cpath, workers=8, timeout=3000, xmx="8g")
+        if tier == "thorough":
+            # the design check covers the whole bound; the circuits handed to the real exporter are capped (breadth-first order)
+            rmc = tlc("MC_Bristol", "MC_Bristol_thorough_mc.cfg", workers=8, timeout=6000, xmx="8g")
+            run.add_tlc("MC_Bristol/design", rmc)
+        r, n = tlc_cases("MC_Bristol", cfg, cpath, workers=8, timeout=3000, xmx="8g", max_cases=None if tier == "quick" else 250000)
         run.add_tlc("MC_Bristol/" + cfg, r)
-        run.cov["exhaustive"] = True
+        run.cov["emitted_cases"] = n
+        run.cov["exhaustive"] = tier == "quick" or n < 250000
         epath = os.path.join(run.work, "ev.ndjson")
         run_harness(harness, ["bristol-roundtrip", cpath, epath], env={"VERIF_TMP": run.work})
         events = read_ndjson(epath)
